@@ -9,11 +9,12 @@ GInit == Init /\ hist = <<>>
 GNext == Next /\ hist' = Append(hist, last')
 GSpec == GInit /\ [][GNext]_<<vars, hist>>
 
-Emit == Constr => PrintT(<<"GEN", ToJson([path |-> hist, exp |-> Proj(b)])>>)
+\* f3: the specification's own state breaks C12_OnGrid (only possible with FollowF3 = TRUE: known finding F3)
+Emit == Constr => PrintT(<<"GEN", ToJson([path |-> hist, exp |-> Proj(b), f3 |-> ~C12_OnGrid(b)])>>)
 
 \* the same, plus what the drain probe must produce when run after the path
 EmitDrain ==
-  Constr => PrintT(<<"GEN", ToJson([path |-> hist, exp |-> Proj(b),
+  Constr => PrintT(<<"GEN", ToJson([path |-> hist, exp |-> Proj(b), f3 |-> ~C12_OnGrid(b),
                           drain |-> [bvol |-> SideVol(b, "B"), avol |-> SideVol(b, "A"),
                                      exp |-> Proj(DrainF(b))]])>>)
 =============================================================================
